@@ -55,5 +55,70 @@ def run(what, tier, jobs, seed):
         return determinism(200 if tier == 'quick' else 2000)
     if what == 'fidelity':
         return anchors()
+    if what == 'sensitivity':
+        return sensitivity(os.environ.get('VERIF_MUTANT'), tier, jobs)
+    if what == 'seeded':
+        return sensitivity(os.environ.get('VERIF_MUTANT'), tier, jobs, index='seeded/index.json')
     print('unknown selftest %r' % what)
     return 2
+
+
+def _scratch_repo(tag):
+    """Copy of the parts of /repo the harness needs (working tree, not HEAD)."""
+    import shutil
+    import subprocess
+    from . import runner
+    d = '/dev/shm/ssh-audit-verif-mut.%d.%s' % (os.getpid(), tag)
+    shutil.rmtree(d, ignore_errors=True)
+    os.makedirs(d)
+    for item in ('src', 'ssh-audit.py', 'test'):
+        src = os.path.join(runner.REPO, item)
+        if os.path.isdir(src):
+            shutil.copytree(src, os.path.join(d, item), ignore=shutil.ignore_patterns('__pycache__', '*.pyc'))
+        else:
+            shutil.copy(src, os.path.join(d, item))
+    return d
+
+
+def sensitivity(only=None, tier='quick', jobs=16, index='mutants/index.json', with_tests=False):
+    """Apply each recorded breaking change to a scratch copy of the tree and require the property's check to report a violation."""
+    import json
+    import shutil
+    import subprocess
+    here = os.path.dirname(os.path.dirname(os.path.abspath(__file__)))
+    with open(os.path.join(here, index)) as f:
+        muts = json.load(f)['mutants']
+    missed = 0
+    for i, m in enumerate(muts):
+        if only and only not in (m['property'], os.path.basename(m['patch']), m.get('id')):
+            continue
+        d = _scratch_repo(str(i))
+        try:
+            r = subprocess.run(['patch', '-p1', '-s', '-d', d, '-i', os.path.join(here, m['patch'])], capture_output=True, text=True)
+            if r.returncode != 0:
+                print('MUTANT-DOES-NOT-APPLY %s: %s' % (m['patch'], (r.stdout + r.stderr)[-300:]))
+                missed += 1
+                continue
+            env = dict(os.environ, VERIF_REPO=d, VERIF_EVIDENCE_DIR=os.path.join(d, '_evidence'), VERIF_REPLAY_DIR=os.path.join(d, '_replays'))
+            if with_tests:
+                t = subprocess.run(['/venv/bin/python', '-m', 'pytest', '-q', '-x', '-p', 'no:cacheprovider', 'test'], cwd=d, capture_output=True, text=True, env=dict(os.environ, PYTHONPATH=os.path.join(d, 'src')))
+                if t.returncode != 0:
+                    print('note: the repository test suite fails with %s' % m['patch'])
+            props = m['property'] if isinstance(m['property'], list) else [m['property']]
+            caught = []
+            for pid in props + m.get('also', []):
+                r = subprocess.run([os.path.join(here, 'check'), pid, '--tier', m.get('tier', tier), '--jobs', str(jobs)], capture_output=True, text=True, env=env, cwd=here)
+                if r.returncode == 1 and 'VIOLATION property=%s' % pid in r.stdout:
+                    cls = [ln.strip() for ln in r.stdout.split('\n') if 'violation class' in ln][:2]
+                    caught.append((pid, cls))
+                elif r.returncode == 2:
+                    print('  harness error while checking %s under %s: %s' % (pid, m['patch'], r.stdout[-400:]))
+            if caught:
+                print('caught  %-34s by %s  %s' % (os.path.basename(m['patch']), ','.join(c[0] for c in caught), caught[0][1][0][:110] if caught[0][1] else ''))
+            else:
+                missed += 1
+                print('MISSED  %-34s (expected %s)' % (os.path.basename(m['patch']), ','.join(props)))
+        finally:
+            shutil.rmtree(d, ignore_errors=True)
+    print('sensitivity: %d missed' % missed)
+    return 0 if missed == 0 else 1
